@@ -393,3 +393,22 @@ def shape_volumes(rng, vols, like=None):
         #  numpy.float32` is evaluated in single precision, so the composition tracking inherits the
         #  precision the caller chose for the volumes - not a question the properties decide)
     return list(vols), "list"
+
+
+def scribble_on_helper_results(rows, cols):
+    """A caller that edits what `make_well_index_dict` / `make_well_array` gave it (mirroring a rotated plate,
+    labelling a layout) must not influence anybody else who asks for the same geometry later."""
+    import robotools
+
+    try:
+        d = robotools.make_well_index_dict(rows, cols)
+        a = robotools.make_well_array(rows, cols)
+    except Exception:
+        return
+    if isinstance(d, dict) and d:
+        items = list(d.items())
+        for (k, _), (_, v) in zip(items, reversed(items)):
+            d[k] = v  # mirrored
+        d.pop(items[0][0], None)
+    if isinstance(a, np.ndarray) and a.size:
+        a[...] = "STD"
